@@ -34,6 +34,8 @@ type Spec struct {
 	// under which it is distinct (optional; default: >=2 workers and >=1 context switch,
 	// keyed by the schedule hash).
 	NonTrivial func(sc interface{}, res *simrt.Result) (bool, uint64)
+	// Post checks the recorded history after the run, outside the bubble (optional).
+	Post func(sc interface{}, res *simrt.Result) *simrt.Violation
 	// LeakOK: unfinished workers at the end of a run are not a violation.
 	LeakOK bool
 	// Sequential: the scenario has a single worker (schedule knobs are irrelevant).
@@ -162,7 +164,11 @@ func violationOf(spec *Spec, res *simrt.Result) *simrt.Violation {
 // RunOne executes one scenario under one configuration.
 func RunOne(t *testing.T, spec *Spec, sc interface{}, cfg simrt.Config) (simrt.Result, *simrt.Violation) {
 	res := simrt.Run(t, cfg, func(env *simrt.Env) { spec.Run(env, sc) })
-	return res, violationOf(spec, &res)
+	v := violationOf(spec, &res)
+	if v == nil && spec.Post != nil && res.Infra == "" && !res.StepLimit {
+		v = spec.Post(sc, &res)
+	}
+	return res, v
 }
 
 func toolInfo() map[string]string {
